@@ -8,10 +8,14 @@
 (*   libtags[l]  : tag -> owner                Library.tags                *)
 (* TLC checks that every step of this machine is a step the abstract       *)
 (* specification (RegistryOps!Promised) admits - StepRefines - and the     *)
-(* bookkeeping invariant RefsExact the code relies on.  With Fix = FALSE   *)
-(* the model is the current code; Fix = TRUE models the proposed repair    *)
-(* (proposed_fixes/C15-fmt-switch-reregister:old-tag-orphaned.diff).       *)
-(* Queries are not modelled (they read `registry` only).                   *)
+(* bookkeeping invariant RefsExact the code relies on.  With Fix = TRUE    *)
+(* the model is the current code: since commit 57c7c8f (the repair of      *)
+(* fmt-switch-reregister:old-tag-orphaned) register() releases the tag a   *)
+(* re-registered component used so far when the formatter gives it another *)
+(* one.  Fix = FALSE is the code before that commit; it is kept as a       *)
+(* control: TLC must find the old deviation as a counterexample (the       *)
+(* refinement check sees this class of defect) and the real code must NOT  *)
+(* reproduce it.  Queries are not modelled (they read `registry` only).    *)
 (***************************************************************************)
 EXTENDS RegistryOps
 
@@ -54,7 +58,7 @@ IRegister(r, n, c) ==
   ELSE IF t \in cfg.prot[l]                                   \* register_tag() raises first
   THEN res' = "TagProtected" /\ UNCHANGED <<registry, tagrefs, libtags>>
   ELSE LET lt1 == Put(libtags[l], t, "comp")                  \* library.tag(tag, tag_fn)
-           rel == IF Fix /\ exists /\ ents[n].tag # t          \* the repair: release the old tag
+           rel == IF Fix /\ exists /\ ents[n].tag # t          \* _release_tag(name, existing.tag)
                   THEN Release(tagrefs[r], lt1, cfg.prot[l], n, ents[n].tag)
                   ELSE [refs |-> tagrefs[r], lt |-> lt1]
            had == IF t \in DOMAIN rel.refs THEN rel.refs[t] ELSE {}
